@@ -126,7 +126,8 @@ def d(e, var: str, dvar=None):
             da, db = d(a, var, dvar), d(b, var, dvar)
             if is_zero(da) and is_zero(db):
                 return ZERO
-            raise NotDifferentiable("Mod")
+            # Mod(a, b) = a - b*floor(a/b), floor piecewise constant
+            return sub(da, mul(db, ["call", "floor", ["bin", "/", a, b]]))
         a = e[2]
         da = d(a, var, dvar)
         if is_zero(da):
@@ -153,7 +154,7 @@ def d(e, var: str, dvar=None):
             # sign(a) * da, sign(0) = 0
             return ["cond", ["rel", "Gt", a, ZERO], da, ["cond", ["rel", "Lt", a, ZERO], neg(da), ZERO]]
         if f == "floor":
-            raise NotDifferentiable("floor")
+            return ZERO  # piecewise constant (derivative almost everywhere)
         raise NotDifferentiable(f)
     if tag == "cond":
         da, db = d(e[2], var, dvar), d(e[3], var, dvar)
